@@ -32,7 +32,7 @@ import (
 )
 
 const (
-	nClients = 3
+	nClients = 5
 	nKeySets = 2
 	nOrigins = 3
 	nBlinds  = 4
@@ -41,14 +41,18 @@ const (
 // Op is one honest request. Client and key set are constant along a history; they are
 // part of the operation so that a history alone rebuilds its world on replay.
 type Op struct {
-	C  int `json:"client"`
-	KS int `json:"keyset"`
-	O  int `json:"origin"`
-	B  int `json:"blind"`
-	X  int `json:"anon"` // 0: the origin's own anonymous origin id; 1: one id shared by all origins
+	C  int  `json:"client"`
+	KS int  `json:"keyset"`
+	O  int  `json:"origin"`
+	B  int  `json:"blind"`
+	X  int  `json:"anon"`                 // 0: the origin's own anonymous origin id; 1: one id shared by all origins
+	R  bool `json:"reregister,omitempty"` // before this request the issuer registers origin O again, with the index key the other key set has for it
 }
 
 func (o Op) label() string {
+	if o.R {
+		return fmt.Sprintf("c%dk%d:reregister(o%d)+o%db%d", o.C+1, o.KS, o.O+1, o.O+1, o.B+1)
+	}
 	return fmt.Sprintf("c%dk%do%db%d%s", o.C+1, o.KS, o.O+1, o.B+1, map[int]string{0: "", 1: "x"}[o.X])
 }
 
@@ -83,8 +87,49 @@ func clientSecret(c int) []byte {
 		return sc(big.NewInt(1))
 	case 1:
 		return scLeadingZero("client", 1)
+	case 3:
+		return searched(3)
+	case 4:
+		return searched(4)
 	}
 	return scDRBG("client")
+}
+
+// searched client secrets: c4 = the first secret (counting up from a DRBG value) whose PUBLIC
+// KEY has an x coordinate with a leading zero byte (the HKDF salt then contains 02/03 00 ..);
+// c5 = the first whose key blinded with index key (set 0, origin o2 = N-1) has such an x (the
+// HKDF input keying material then does). A serialisation that drops leading zero bytes of a
+// coordinate changes the ID for exactly these clients (about 1 in 256).
+var (
+	searchOnce sync.Once
+	searchedSc [2][]byte
+)
+
+func searched(c int) []byte {
+	searchOnce.Do(func() {
+		curve := elliptic.P384()
+		base := new(big.Int).SetBytes(scDRBG("client-search"))
+		f := blindFactor(new(big.Int).SetBytes(indexKey(0, 1)), "IssuerBlind")
+		for i := int64(0); i < 200000 && (searchedSc[0] == nil || searchedSc[1] == nil); i++ {
+			d := new(big.Int).Add(base, big.NewInt(i))
+			d.Mod(d, new(big.Int).Sub(curve.Params().N, big.NewInt(1)))
+			d.Add(d, big.NewInt(1))
+			x, y := curve.ScalarBaseMult(d.Bytes())
+			if searchedSc[0] == nil && x.BitLen() <= 376 {
+				searchedSc[0] = sc(d)
+			}
+			if searchedSc[1] == nil {
+				bx, _ := curve.ScalarMult(x, y, f.Bytes())
+				if bx.BitLen() <= 376 {
+					searchedSc[1] = sc(d)
+				}
+			}
+		}
+		if searchedSc[0] == nil || searchedSc[1] == nil {
+			panic("client search failed")
+		}
+	})
+	return searchedSc[c-3]
 }
 
 // indexKey: set 0 = {1, N-1, leading zero byte}, set 1 = {2, DRBG, two leading zero bytes}.
@@ -131,6 +176,30 @@ type world struct {
 	refID  [nOrigins][]byte
 	refF   [nOrigins]*big.Int
 	anon   [nOrigins][]byte
+	alt    [nOrigins]bool // origin currently registered with the OTHER key set's index key
+}
+
+// register (re-)registers origin o with the index key of key set ks (alt = false) or of the
+// other key set (alt = true) and updates the reference values.
+func (wd *world) register(o int, alt bool) error {
+	ks := wd.ks
+	if alt {
+		ks = 1 - wd.ks
+	}
+	kb := indexKey(ks, o)
+	k, err := ecdsa.CreateKey(elliptic.P384(), kb)
+	if err != nil {
+		return err
+	}
+	if err := wd.w.Issuer.AddOriginWithIndexKey(originName(wd.ks, o), k); err != nil {
+		return err
+	}
+	id, f, err := refIssuerOriginID(wd.pub, new(big.Int).SetBytes(kb))
+	if err != nil {
+		return err
+	}
+	wd.refID[o], wd.refF[o], wd.alt[o] = id, f, alt
+	return nil
 }
 
 func newWorld(c, ks int) (*world, error) {
@@ -138,27 +207,18 @@ func newWorld(c, ks int) (*world, error) {
 	wd := &world{c: c, ks: ks, w: px.NewW3(0), secret: clientSecret(c)}
 	wd.pub = p384Pub(wd.secret)
 	for o := 0; o < nOrigins; o++ {
-		kb := indexKey(ks, o)
-		k, err := ecdsa.CreateKey(elliptic.P384(), kb)
-		if err != nil {
+		if err := wd.register(o, false); err != nil {
 			return nil, err
 		}
-		if err := wd.w.Issuer.AddOriginWithIndexKey(originName(ks, o), k); err != nil {
-			return nil, err
-		}
-		id, f, err := refIssuerOriginID(wd.pub, new(big.Int).SetBytes(kb))
-		if err != nil {
-			return nil, err
-		}
-		wd.refID[o], wd.refF[o] = id, f
 		wd.anon[o] = mc.Fill(seedBase, fmt.Sprintf("anon-origin-%d", o), 32)
 	}
 	return wd, nil
 }
 
 type kept struct {
-	o  int
-	id []byte // the very slice FinalizeIndex returned (not copied)
+	o    int
+	id   []byte // the very slice FinalizeIndex returned (not copied)
+	want []byte // copy of its contents when it was returned
 }
 
 type State struct {
@@ -169,12 +229,24 @@ type State struct {
 	seen  map[[2]int]bool
 	first [nOrigins][]byte // copy of the first ID observed per origin on this path
 	keptv []kept
-	last  []byte // copy of the ID returned by the last step
+	last  []byte        // copy of the ID returned by the last step
 	bound [nOrigins]int // which anonymous id choice (X+1) the origin was first accepted under
 }
 
 func cloneState(s *State) *State {
 	n := &State{wd: s.wd, hist: s.hist, depth: s.depth, first: s.first, last: s.last, bound: s.bound}
+	if s.wd != nil {
+		// the issuer is a live object that re-registration mutates: every state owns its issuer
+		// (same client, same keys, same registrations; the name key is drawn afresh)
+		if wd, err := newWorld(s.wd.c, s.wd.ks); err == nil {
+			for o := 0; o < nOrigins; o++ {
+				if s.wd.alt[o] {
+					wd.register(o, true)
+				}
+			}
+			n.wd = wd
+		}
+	}
 	if s.cache != nil {
 		n.cache = px.NewMemCache()
 		n.cache.Puts = s.cache.Puts
@@ -215,6 +287,14 @@ func applyInner(s *State, op Op) (string, *mc.Viol) {
 	wd := s.wd
 	if op.C != wd.c || op.KS != wd.ks {
 		return "harness-mixed-history", nil
+	}
+	if op.R {
+		if err := wd.register(op.O, !wd.alt[op.O]); err != nil {
+			return "reregister-fails", &mc.Viol{Sig: "AddOriginWithIndexKey fails", What: err.Error()}
+		}
+		// the origin has another index key now: the ID of (client, origin) legitimately changes;
+		// the request of this same step is the first one under the new key
+		s.first[op.O] = nil
 	}
 	here := s.hist + op.label() + ";"
 	mc.Entropy("c08-" + here)
@@ -288,19 +368,21 @@ func applyInner(s *State, op Op) (string, *mc.Viol) {
 	}
 	if s.first[op.O] == nil {
 		s.first[op.O] = append([]byte{}, id...)
+	}
+	if !wd.alt[op.O] {
 		observed.LoadOrStore(fmt.Sprintf("%d-%d-%d", wd.c, wd.ks, op.O), hex.EncodeToString(id))
 	}
 	// IDs handed out earlier must not change under later requests
 	if v == nil {
 		for _, k := range s.keptv {
-			if !bytes.Equal(k.id, s.first[k.o]) {
+			if !bytes.Equal(k.id, k.want) {
 				v = &mc.Viol{Sig: "an ID returned earlier changed after a later request",
-					What: fmt.Sprintf("%sID returned for o%d was %x, the same slice now holds %x", where, k.o+1, s.first[k.o], k.id)}
+					What: fmt.Sprintf("%sID returned for o%d was %x, the same slice now holds %x", where, k.o+1, k.want, k.id)}
 				break
 			}
 		}
 	}
-	s.keptv = append(s.keptv, kept{o: op.O, id: id})
+	s.keptv = append(s.keptv, kept{o: op.O, id: id, want: append([]byte{}, id...)})
 	return class, v
 }
 
@@ -427,11 +509,16 @@ func newSeq(c, ks, depth int) *mc.Seq[*State, Op] {
 			}
 		}
 	}
+	for o := 0; o < nOrigins; o++ {
+		menu = append(menu, Op{C: c, KS: ks, O: o, B: 3, R: true})
+	}
 	return &mc.Seq[*State, Op]{
 		Init:  func() *State { return &State{} },
 		Ops:   func(*State, int) []Op { return menu },
 		Apply: apply,
-		Clone: cloneState,
+		// no Clone: successors are produced by replaying the history on a fresh State, so that ONE
+		// issuer object and ONE attester cache live through a whole history (whatever they remember
+		// internally is part of the state)
 		Depth: depth,
 		Kind:  "history",
 		Label: func(o Op) string { return o.label() },
